@@ -553,6 +553,9 @@ class SymReal:
     def arctan(s):
         return _mk(uf("atan")(s.t))
 
+    def arctan2(s, o):
+        return _mk(uf("atan2", 2)(s.t, lift(o)))
+
     def sinh(s):
         return _mk(uf("sinh")(s.t))
 
